@@ -68,8 +68,8 @@ SITES_LISTED = {
 
 
 def site_check(C):
-    """enumerate syntactically every <expr>.hw_driver.(pulse|enable|timed_enable)(...) under mpf/ (not tests,
-    not platform back ends); each must be a verified site or a listed one.  A new site is a violation of the
+    """enumerate syntactically every <expr>.hw_driver.(pulse|enable|timed_enable)(...) under mpf/ (not tests;
+    platform packages included: a platform that drives ANOTHER device's hw_driver bypasses Driver); each must be a verified site or a listed one.  A new site is a violation of the
     statement's 'no path bypasses the verification' unless it is brought under contract."""
     import ast
     import os
@@ -79,7 +79,7 @@ def site_check(C):
     root = os.path.join(extract.REPO, "mpf")
     for dp, dn, fn in os.walk(root):
         rel = os.path.relpath(dp, extract.REPO)
-        if rel.startswith(("mpf/tests", "mpf/platforms", "mpf/benchmarks")):
+        if rel.startswith(("mpf/tests", "mpf/benchmarks")):
             continue
         for f in fn:
             if not f.endswith(".py"):
@@ -141,6 +141,37 @@ def site_check(C):
     for key in SITES_UNDER_CONTRACT:
         if not any((r, q) == key for r, q, _ in found):
             rows.append(("site-present[%s:%s]" % key, True, "site no longer present (nothing to check)"))
+    # the two switch-off timers of a coil (software-timed pulse, max_hold_duration) belong to Driver alone: 'switched off
+    # again when that time is up, whatever else happens in between' can only hold if nobody else removes or resets them
+    touched = []
+    for dp, dn, fn in os.walk(root):
+        rel = os.path.relpath(dp, extract.REPO)
+        if rel.startswith(("mpf/tests", "mpf/benchmarks")):
+            continue
+        for f in fn:
+            if not f.endswith(".py"):
+                continue
+            relf = os.path.join(rel, f)
+            if relf == DRIVER:
+                continue
+            src, tree = extract.load_module(relf)
+            for n in ast.walk(tree):
+                # <expr>.delay.<method>(...) where <expr> is not `self` / `self.machine`: a delay manager that belongs to
+                # ANOTHER device (a coil's `delay` holds its switch-off timers) is manipulated from outside
+                if isinstance(n, ast.Call) and isinstance(n.func, ast.Attribute) and \
+                        isinstance(n.func.value, ast.Attribute) and n.func.value.attr == "delay":
+                    base = ast.unparse(n.func.value.value)
+                    if base == "self":
+                        continue
+                    names = [a.value for a in list(n.args) + [k.value for k in n.keywords]
+                             if isinstance(a, ast.Constant)]
+                    timer_named = any(x in ("timed_disable", "enable_limit_reached") for x in names)
+                    wipes_coil = n.func.attr == "clear" and any(w in base.lower() for w in ("coil", "driver"))
+                    if timer_named or wipes_coil:
+                        touched.append("%s:%d %s" % (relf, n.lineno, ast.unparse(n)[:80]))
+    rows.append(("a coil's switch-off timers ('timed_disable', 'enable_limit_reached' in its own delay manager) are only "
+                 "touched by Driver: no module calls <other device>.delay.*", not touched,
+                 "no such call" if not touched else "; ".join(touched[:3])))
     return rows
 
 
